@@ -278,12 +278,12 @@ pub open spec fn kind_ok(e: GdsElement, open: GdsRecord) -> bool {
         GdsRecord::StructRef => e is GdsStructRef, GdsRecord::ArrayRef => e is GdsArrayRef, GdsRecord::Node => e is GdsNode, _ => false }
 }
 pub open spec fn kinds_ok(es: Seq<GdsElement>, opens: Seq<GdsRecord>) -> bool { es.len() == opens.len() && forall|i: int| 0 <= i < es.len() ==> kind_ok(#[trigger] es[i], opens[i]) }
-/// GRAMMAR STEP of <library> after BGNLIB: LIBNAME sets the name, UNITS the units, BGNSTR appends one structure
+/// GRAMMAR STEP of <library> after BGNLIB: LIBNAME sets the name, UNITS the units, BGNSTR appends one structure (which carries BGNSTR's dates)
 pub open spec fn libb_step(l0: GdsLibraryBuilder, s0: Seq<GdsStruct>, r: GdsRecord, l1: GdsLibraryBuilder, s1: Seq<GdsStruct>) -> bool {
     match r {
         GdsRecord::LibName(d) => l1 == (GdsLibraryBuilder { name: Some(d), ..l0 }) && s1 == s0,
         GdsRecord::Units(d0, d1) => l1.units is Some && (l1.units->0).0 == d0 && (l1.units->0).1 == d1 && l1.name == l0.name && l1.version == l0.version && l1.dates == l0.dates && l1.structs == l0.structs && s1 == s0,
-        GdsRecord::BgnStruct { dates } => l1 == l0 && s1.len() == s0.len() + 1 && s1.drop_last() == s0,
+        GdsRecord::BgnStruct { dates } => l1 == l0 && s1.len() == s0.len() + 1 && s1.drop_last() == s0 && (forall|i: int| 0 <= i < 12 ==> dates12(s1.last().dates)[i] == #[trigger] dates@[i] as int),
         _ => false,
     }
 }
